@@ -174,9 +174,11 @@ def deref (v : Value) : VMM Value :=
 
 def slots (r : Regs) (from_ n : Nat) : List Value := (List.range n).map (fun i => getSlot r (from_ + i))
 
-/-- Selectors and value of a SETSEL* instruction: `selectors[i] = stack[sp-numSel+i]`, value below. -/
+/-- Selectors and value of a SETSEL* instruction: `selectors[i] = stack[sp-numSel+i]`, value below. The compiler
+pushes the selectors innermost first (`selectors[0]` is the one `IndexSet` is called with, vm.go `indexAssign` walks
+`selectors[numSel-1] … selectors[1]` first); `SpecEval.indexAssign` takes them in source order, outermost first. -/
 def selArgs (r : Regs) (numSel : Nat) : List Value × Value :=
-  (slots r (r.sp - numSel) numSel, getSlot r (r.sp - numSel - 1))
+  ((slots r (r.sp - numSel) numSel).reverse, getSlot r (r.sp - numSel - 1))
 
 /-- `Iterate()` of the iterable types; `none` = `CanIterate()` is false. -/
 def makeIter (v : Value) : VMM (Option Obj) := do
